@@ -133,6 +133,23 @@ def rule_embedded_commit_qc(ctx):
            "process_timeout_qc can return Ok without processing the certificate's high commit QC when (held timeout QC, held.view vs qc.view) is %s: a newer commit certificate carried by a same-view (or older) timeout certificate is dropped" % bad, f.loc())
 
 
+def rule_new_view_membership(ctx):
+    R = "C05.9"
+    ctx.rule(R, "a new-view message is acted on only when its signer is a committee member (spec/informal-spec/replica.rs on_new_view): certificate adoption and the view change are unreachable when validators.contains(author) is false")
+    f = ctx.body(SM + "::on_new_view")
+    T = ctx.T(f)
+
+    def a_member(t):
+        return t[0] == "call" and t[1].endswith("Schedule::contains")
+    acts = [c["bb"] for c in T.calls() if (c["rq"] or c["q"]) in (SM + "::process_commit_qc", SM + "::process_timeout_qc", SM + "::start_new_view")]
+    ctx.floor(R, "actions of on_new_view (certificate adoption, view change)", len(acts), 3)
+    W = Walker(ctx, f, [Atom("member", "bool", a_member, [True, False])])
+    names, tab = W.table({"act": acts})
+    ok = "act" in tab.get((True,), set()) and "act" not in tab.get((False,), {"act"})
+    ctx.ob(R, "membership gate", ok, "on_new_view adopts certificates / changes view only for committee members" if ok else
+           "on_new_view acts on a new-view message although its signer is not in the validator committee (reachability by membership: %s)" % {k[0]: sorted(v) for k, v in tab.items()}, f.loc())
+
+
 def rule_stale_new_view(ctx):
     R = "C05.5"
     ctx.rule(R, "stale new-view (guard table): processing is unreachable when msg.view < self.view; a future view is started exactly when msg.view > self.view")
@@ -275,5 +292,5 @@ def rule_justification_choice(ctx):
                "with commit=%s timeout=%s order %s get_justification reaches %s; specified %s (spec/informal-spec/replica.rs create_justification)" % (c, t, o, sorted(reach), sorted(exp)), g.loc())
 
 
-RULES = [("C05.1", rule_who_writes), ("C05.4", rule_justification_choice), ("C05.2", rule_strictly_newer), ("C05.3", rule_embedded_commit_qc), ("C05.5", rule_stale_new_view), ("C05.6", rule_stale_votes),
+RULES = [("C05.1", rule_who_writes), ("C05.4", rule_justification_choice), ("C05.2", rule_strictly_newer), ("C05.3", rule_embedded_commit_qc), ("C05.9", rule_new_view_membership), ("C05.5", rule_stale_new_view), ("C05.6", rule_stale_votes),
          ("C05.7", rule_self_justifying), ("C05.8", rule_wrong_leader)]
